@@ -65,14 +65,14 @@ COMPONENTS = {
 ASSUMPTIONS = {
     "C02": [
         "reference value is numpy.einsum(optimize=False) on float64/complex128 arrays; tolerance 1e-9 * einsum(|arrays|)",
-        "a tree whose in-place transformation raised is dropped from the live set (the property promises nothing about it)",
+        "a transformation that raises (refused parameters) is part of the history: the tree stays live and is checked afterwards",
         "index names are single characters (cotengra's contraction recipes require that)",
         "sampling, not enumeration: networks <= 9 tensors, <= 12 indices, dims in {1,2,3}, histories <= 14 ops",
     ],
     "C04": [
         "fresh reference = ContractionTree.from_path(inputs, output, size_dict, path=T.get_path()) + remove_ind_ per sliced index",
         "legs/involved are compared as index *sets* (dict keys); appearance counts are an internal encoding",
-        "a tree whose in-place transformation raised is dropped from the live set",
+        "a transformation that raises (refused parameters) is part of the history: the tree stays live and is checked afterwards",
         "sampling, not enumeration",
     ],
 }
@@ -81,7 +81,8 @@ EXPECTED_PROBES = {
     "C02": ["op:subtree_reconfigure", "op:simulated_anneal", "op:remove_ind", "op:restore_ind", "op:slice",
             "op:sort_contraction_indices", "op:copy", "op:contract", "op:subtree_reconfigure_forest",
             "op:parallel_temper", "op:slice_and_reconfigure", "probe:projected_tree_contracted",
-            "probe:sliced_tree_contracted", "pool:out_of_order", "probe:contract_after_mutation_with_warm_cache"],
+            "probe:sliced_tree_contracted", "pool:out_of_order", "probe:contract_after_mutation_with_warm_cache",
+            "probe:tree_kept_after_refused_op"],
     "C04": ["op:subtree_reconfigure", "op:simulated_anneal", "op:remove_ind", "op:restore_ind", "op:slice",
             "op:copy", "probe:roundtrip_unsliced_checked", "probe:tracked_before_mutation"],
 }
@@ -144,7 +145,8 @@ def _gen_op(rng, heavy_ok=True):
             # 'time' without a target_size raises TypeError in parallel_temper (observation O2)
             op["parallel_slice_mode"] = rng.choice(["temperature", "time", "constant"])
     elif name == "remove_ind":
-        op.update(k=rng.randrange(64), project=rng.choice([None, None, 0, 1, 2]), inplace=rng.random() < 0.85)
+        op.update(k=rng.randrange(64), project=rng.choice([None, None, 0, 1, 2]), inplace=rng.random() < 0.85,
+                  again=rng.random() < 0.12)
     elif name == "restore_ind":
         op.update(k=rng.randrange(64), inplace=rng.random() < 0.85)
     elif name in ("unslice_rand", "unslice_all"):
@@ -572,6 +574,9 @@ def _apply(ctg, op, trees, net, clk, pools, counters, log):
         place(res)
     elif name == "remove_ind":
         cands = [ix for ix in sorted(net.size_dict) if ix not in tree.sliced_inds]
+        if op.get("again") and tree.sliced_inds:
+            # ask for an index that is already sliced / projected: documented ValueError
+            cands = list(tree.sliced_inds)
         if not cands:
             raise OpSkip
         ix = cands[op["k"] % len(cands)]
@@ -763,11 +768,12 @@ def run_case(prop, case):
                     break
                 counters[f"op-crash:{name}:{ename}"] += 1
                 log.add("crash", step, name, ename)
-                if op.get("inplace", True) or name in ("sort_contraction_indices", "reset_contraction_indices"):
-                    # the property promises nothing about this tree any more
-                    trees.pop(t)
-                    if not trees:
-                        break
+                # A transformation that refuses its arguments (the quantifier says "with arbitrary parameters") is part
+                # of the history: the tree stays live and must still compute the original value afterwards.
+                counters["probe:tree_kept_after_refused_op"] += 1
+                for tr in trees:
+                    log.add("tree", step, _tree_summary(tr))
+                check_all(step, name + "!raised")
                 continue
             counters["op:" + name] += 1
             if name in MUTATORS:
